@@ -1,6 +1,9 @@
 package main
 
-import "sync"
+import (
+	"iter"
+	"sync"
+)
 
 // Read histories over one Number and views derived from it (C04, C07, C17, and with counting sources C06).
 //
@@ -9,7 +12,8 @@ import "sync"
 // ops (view indices start at 0 = the base Number; every derive op appends a view; NEW appends an iterator):
 //	WS i a | WE i a | FWS i a | WSG i a    derive            answer: tag fs pf nm exp zero   | -9 when not applicable
 //	AT i p                                 Number.At         answer: digit | -9
-//	NEW i kind [p]                         pull iterator     kinds F B I1 R1 IA1(p); answer: 0 | -9
+//	NEW i kind [p]                         pull iterator     kinds F B I1 R1 IA1(p), P = v3 iter.Pull2 over All() (a push iterator
+//	                                       suspended inside its loop body while other reads happen); answer: 0 | -9
 //	NX id                                  one pull          answer: pos val | -1 -1      (pos -2: kind has no positions)
 //	RUN i kind k                           push iterator A V K, stop after k items (k<0: all); answer: cnt (pos val)*
 //	STR i                                  AsString          answer: cnt d*
@@ -21,6 +25,7 @@ type histState struct {
 	ver   string
 	views []View
 	its   []pullFn
+	stops []func()
 	src   *Source
 }
 
@@ -168,6 +173,14 @@ func execHist(st *histState, a *cur, n int) toks {
 			switch kind {
 			case "F":
 				it = v.Fwd()
+			case "P":
+				if v.ver == "v3" {
+					next, stop := iter.Pull2(v.s3.All())
+					st.stops = append(st.stops, stop)
+					it = func() (int, int, bool) { return next() }
+				} else {
+					it = v.Fwd()
+				}
 			case "B":
 				it, _ = v.Bwd()
 			case "I1":
@@ -274,6 +287,9 @@ func execHist(st *histState, a *cur, n int) toks {
 		default:
 			panic("bad hist op " + op)
 		}
+	}
+	for _, stop := range st.stops {
+		stop()
 	}
 	return out
 }
